@@ -8,6 +8,7 @@ import Mahotas.Proofs.C19Lbp
 import Mahotas.Proofs.C19LbpHist
 import Mahotas.Proofs.C19Integral
 import Mahotas.Proofs.C19Haralick
+import Mahotas.Proofs.C19Zernike
 namespace Mahotas.C19
 open Mahotas Mahotas.Generated
 
@@ -191,6 +192,34 @@ theorem C19_zernike_scale_invariance {α : Type} [Field α] [LinearOrder α] [Is
     ((∃ dv ∈ inDisc.zip P, dv.1 = true ∧ 0 < dv.2) → gsum 0 (zernikeFrac 0 inDisc P) = 1) :=
   ⟨zernikeFrac_scale inDisc P s hs, zernikeFrac_sum_of_exists inDisc P⟩
 
+/-- **C19-T6 (Zernike: rotation by 90° about the chosen centre).** `zernikeZ` is the transliteration of
+`zernike_moments` up to `abs` — grid `Yn = (y − c0)/radius`, `Xn = (x − c1)/radius`, `Dn = max(sqrt(Xn² + Yn²), eps)`,
+selection `(Dn <= 1) & (P > 0)`, weights `P[k]/P[k].sum()`, angles `An ** l` with `An = (Xn + i·Yn)/Dn`, then the
+kernel `_zernike.znl` (`znlG`: radial coefficients from the extracted factorial table, `Vnl = Σ_m g_m · pow(d, n−2m) · a`,
+`v = Σ p · conj(Vnl)`, `v *= (n+1)/π`) — generic in the scalar type; the driver runs it at `Float` and the check compares
+it with the real `_zernike.znl` and `zernike_moments`. Over **any field with a decidable linear order**, for **arbitrary**
+functions `sqrt` and `pow` and arbitrary `eps`, `π`, every image size, image, centre, radius, `n` and `l`:
+the moment of the image rotated by 90° (`rot[i][j] = im[j][C−1−i]`, i.e. `np.rot90`, centre moved with it to
+`(C−1−c1, c0)`) is `i^l` times the moment of the image; `|i^l|² = 1`, hence `|z_nl|²` is unchanged, and the whole vector
+returned by `zernike_moments` (`sqrt |z_nl|²` for every `(n, l)` through any degree) is *equal*. (Rotation permutes the
+selected pixels, keeps `Dn`, the value and the weight of each, and multiplies its angle `An` by `−i`.) -/
+theorem C19_zernike_rot90 {α : Type} [Field α] [LinearOrder α] (sqrt : α → α) (pow : α → ℕ → α) (eps pi : α)
+    (R C : ℕ) (im : ℕ → ℕ → α) (c0 c1 radius : α) :
+    let rot := fun (i j : ℕ) => im j (C - 1 - i)
+    (∀ n l, zernikeZ 0 1 Nat.cast sqrt pow eps pi C R rot ((C : α) - 1 - c1) c0 radius n l =
+      cxMul (cxPow 0 1 (0, 1) l) (zernikeZ 0 1 Nat.cast sqrt pow eps pi R C im c0 c1 radius n l)) ∧
+    (∀ l, cxNormSq (cxPow 0 1 ((0 : α), 1) l) = 1) ∧
+    (∀ n l, cxNormSq (zernikeZ 0 1 Nat.cast sqrt pow eps pi C R rot ((C : α) - 1 - c1) c0 radius n l) =
+      cxNormSq (zernikeZ 0 1 Nat.cast sqrt pow eps pi R C im c0 c1 radius n l)) ∧
+    (∀ degree, zernikeAbs 0 1 Nat.cast sqrt pow eps pi C R rot ((C : α) - 1 - c1) c0 radius degree =
+      zernikeAbs 0 1 Nat.cast sqrt pow eps pi R C im c0 c1 radius degree) := by
+  intro rot
+  refine ⟨fun n l => zernikeZ_rot90 sqrt pow eps pi R C im c0 c1 radius n l, cxNormSq_pow_i,
+    fun n l => zernikeZ_rot90_normSq sqrt pow eps pi R C im c0 c1 radius n l, fun degree => ?_⟩
+  unfold zernikeAbs
+  refine List.map_congr_left fun nl _ => ?_
+  rw [zernikeZ_rot90_normSq]
+
 /-! non-vacuity -/
 example : coocCount [2, 3] (fun p => ([0, 1, 1, 1, 0, 1].getD (ravelI [2, 3] p) 0)) [0, 1] 1 1 = 1 ∧
     coocSym [2, 3] (fun p => ([0, 1, 1, 1, 0, 1].getD (ravelI [2, 3] p) 0)) [0, 1] 0 1 = 3 := by decide
@@ -203,4 +232,13 @@ example : zernikeFrac (0 : Rat) [true, false, true, true] [2, 5, 0, 6] = [1 / 4,
 example : (normMat (Nat.cast : Nat → Rat) [1, 2, 2, 3]).toList = [1 / 8, 1 / 4, 1 / 4, 3 / 8] ∧
     pplusG (0 : Rat) 2 (matAt 0 2 (normMat (Nat.cast : Nat → Rat) [1, 2, 2, 3])) = [1 / 8, 1 / 2, 3 / 8, 0] ∧
     pminusG (0 : Rat) 2 (matAt 0 2 (normMat (Nat.cast : Nat → Rat) [1, 2, 2, 3])) = [1 / 2, 1 / 2] := by
+  decide +kernel
+/-- a 2×3 image, centre (1/2, 1), radius 2 (with `sqrt := id`, a legitimate instance of the arbitrary function):
+    `z_11 = −1/8 − i/24`, and the rotated image gives `i · z_11 = 1/24 − i/8` -/
+example :
+    let im : Nat → Nat → Rat := fun y x => ([1, 2, 0, 3, 1, 1] : List Rat).getD (y * 3 + x) 0
+    zernikeZ (0 : Rat) 1 Nat.cast (fun x => x) (fun d k => d ^ k) (1 / 1000000000) 3 2 3 im (1 / 2) 1 2 1 1
+      = (-1 / 8, -1 / 24) ∧
+    zernikeZ (0 : Rat) 1 Nat.cast (fun x => x) (fun d k => d ^ k) (1 / 1000000000) 3 3 2
+      (fun i j => im j (3 - 1 - i)) (3 - 1 - 1) (1 / 2) 2 1 1 = (1 / 24, -1 / 8) := by
   decide +kernel
